@@ -140,10 +140,11 @@ pub fn check_program(out: &mut Out, names: &mut Ser, p: &Prog, src: &str, defect
     }
     // --- type checking: correspondence op `infer` ----------------------------------------------------
     let hc0 = holecopy_events();
+    let hd0 = holedepth_events();
     let (mut tctx, mut dctx) = (vec![], vec![]);
     let c = check_term(names, src, &term, &mut tctx, &mut dctx);
     out.case(&c.op, &c.answer);
-    if let Some(m) = &c.panic { out.hit("C14", "type_check-panic", src, m); return; }
+    if let Some(m) = &c.panic { out.hit("C14", "type_check-panic", src, &format!("{m} holedepth-events={}", holedepth_events() - hd0)); return; }
     if !c.ctx_restored { out.hit("C18", "contexts-not-restored", src, &c.answer); }
     let Some((elab, ty)) = c.accepted else {
         out.stat("stage:rejected");
